@@ -259,6 +259,17 @@ impl Serialize for TextResource {
                     result.map_err(|e| serde::ser::Error::custom(format!("{}", e)))?;
                 } else {
                     //plain text
+                    #[cfg(stam_verif)]
+                    if let Some(vfs) = crate::verif_hooks::vfs() {
+                        let mut f = vfs
+                            .create(filename.as_path())
+                            .map_err(|e| serde::ser::Error::custom(format!("{}", e)))?;
+                        f.write_all(self.text.as_bytes())
+                            .and_then(|_| f.flush())
+                            .map_err(|e| serde::ser::Error::custom(format!("{}", e)))?;
+                        self.mark_unchanged();
+                        return state.end();
+                    }
                     std::fs::write(filename, &self.text)
                         .map_err(|e| serde::ser::Error::custom(format!("{}", e)))?;
                 }
@@ -411,6 +422,9 @@ impl TextResourceBuilder {
                 }
             } else {
                 // load plain text file
+                #[cfg(stam_verif)]
+                let mut f = open_file_reader(filename.as_str(), &config)?;
+                #[cfg(not(stam_verif))]
                 let mut f = open_file(filename.as_str(), &config)?;
                 let mut text: String = String::new();
                 if let Err(err) = f.read_to_string(&mut text) {
@@ -493,6 +507,9 @@ impl TextResource {
 
     /// Writes a plain text file
     pub fn to_txt_file(&self, filename: &str) -> Result<(), StamError> {
+        #[cfg(stam_verif)]
+        let mut f = open_file_writer(filename, self.config())?;
+        #[cfg(not(stam_verif))]
         let mut f = create_file(filename, self.config())?;
         write!(f, "{}", self.text()).map_err(|err| {
             StamError::IOError(err, filename.to_owned(), "TextResource::to_txt_file")
